@@ -631,18 +631,17 @@ impl endpoint::Connection for ListenerConnection {
         outgoing_channel: OutgoingChannel,
         begin: Begin,
     ) -> Result<amqp::Frame, Self::Error> {
-        if let Some(remote_channel) = begin.remote_channel {
-            let relay = self
-                .connection
+        if begin.remote_channel.is_some() {
+            // The peer's channel was registered when its begin arrived (`on_incoming_begin`)
+            // and is released by its end. Registering it again here would bring it back
+            // after an end that was pipelined behind the begin and has already been
+            // processed: the channel would stay taken for the life of the connection.
+            self.connection
                 .session_by_outgoing_channel
                 .get(outgoing_channel.0 as usize)
                 .ok_or_else(|| {
                     Self::Error::NotFound(Some(String::from("Outgoing channel is not found")))
                 })?;
-
-            self.connection
-                .session_by_incoming_channel
-                .insert(IncomingChannel(remote_channel), relay.clone());
         }
 
         self.connection.on_outgoing_begin(outgoing_channel, begin)
